@@ -1,4 +1,5 @@
 import CrdtModel.Spec.OrswotSys
+import CrdtModel.Proofs.OrswotExec
 set_option linter.unusedSectionVars false
 /-!
 # C04 — Orswot is an observed-remove, add-wins set
@@ -13,6 +14,10 @@ open Crdt LinOrd RepSys OrswotSpec Orswot
 variable {M A : Type} [LinOrd M] [LinOrd A] {U K : List (OrswotOp M A)} {s : Orswot M A}
 
 theorem rep (wf : LogWF U) (h : orswotSys.Reach U s K) : OrswotSpec.Rep K s := (reach_rep (R := orswotSys) wf h).2
+
+/-- **every derivable state IS the executable specification of its knowledge** (`specState` builds the state from the op
+list alone; it is what the driver prints and the check compares the implementation with) -/
+theorem state_eq_spec (wf : LogWF U) (h : orswotSys.Reach U s K) : s = specState K := eq_specState (rep wf h)
 
 /-- presence of an entry = some positive witness (no empty entries are stored) -/
 theorem present_iff_witness (h : OrswotSpec.Rep K s) (m : M) :
